@@ -58,6 +58,12 @@ def build_traces(path, tier, seed):
         for s in range(3):
             for k in range(len(periods)):
                 scale = abs(alpha) * float(np.max(np.abs(ra[s][k]))) + abs(beta) * float(np.max(np.abs(rb[s][k]))) + 1e-300
+                # "to rounding": rounding is relative to the operands of the recurrence, i.e. to the natural size of the series
+                # (|a|max/w^2, |a|max/w, |a|max), which a heavily damped very short period oscillator (T/dt = 0.2, xi -> 1) falls
+                # below by e^{-xi w dt} = 1e-13 per step; 1e-9 * 1e-7 = 1e-16 of that size is admitted on top
+                w_ = 2 * np.pi / periods[k] if periods[k] > 0 else 1.0
+                nat = (abs(alpha) * float(np.max(np.abs(a))) + abs(beta) * float(np.max(np.abs(b)))) * [1.0 / w_ ** 2, 1.0 / w_, 1.0][s]
+                scale += 1e-7 * nat
                 lin("Linear", alpha, ra[s][k], beta, rb[s][k], rc[s][k], dict(m, series=s, period=k, alpha=alpha, beta=beta), 1e-9, scale)
         # spectra scale by |alpha| and ignore the sign
         for spec_fn, nme in ((sdof.pseudo_response_spectra, "pseudo"), (sdof.true_response_spectra, "true")):
@@ -148,17 +154,22 @@ def build_traces(path, tier, seed):
         keep = [kk for kk, T in enumerate(periods) if T > 0 and r * T / dt <= 2e4]
         if keep and n <= 600:
             fine = np.interp(np.arange((n - 1) * r + 1) / r, np.arange(n), a)
+            mo = n            # number of original instants covered by the refined record
             if i % 2:
-                fine2, dtf = tp.interp_array_to_approx_dt(a, dt, dt / r * (1 + 1e-9), even=False)
-                if abs(dtf - dt / r) < 1e-12 * dt and len(fine2) >= len(fine):
+                # the library's own refiner (default even=True drops a sample when the refined count is odd: the response is
+                # then compared on the instants that remain -- the operator is causal)
+                ev_ = bool(rng.integers(2))
+                fine2, dtf = tp.interp_array_to_approx_dt(a, dt, dt / r * (1 + 1e-9), even=ev_) if not ev_ else tp.interp_array_to_approx_dt(a, dt, dt / r * (1 + 1e-9))
+                if abs(dtf - dt / r) < 1e-12 * dt and len(fine2) >= len(fine) - 1:
                     fine = np.asarray(fine2)[: len(fine)]
+                    mo = (len(fine) - 1) // r + 1
             pk = periods[keep]
             rf = fn(fine, dt / r, pk, xi)
             for kk, T in enumerate(pk):
-                add({"kind": "refine", "T": enc(T), "xi": enc(xi), "dt": enc(dt), "r": r, "a": enc_seq(a),
-                     "u0": enc_seq(ra[0][keep[kk]]), "v0": enc_seq(ra[1][keep[kk]]), "ur": enc_seq(rf[0][kk][::r]), "vr": enc_seq(rf[1][kk][::r])},
+                add({"kind": "refine", "T": enc(T), "xi": enc(xi), "dt": enc(dt), "r": r, "a": enc_seq(a[:mo]),
+                     "u0": enc_seq(ra[0][keep[kk]][:mo]), "v0": enc_seq(ra[1][keep[kk]][:mo]), "ur": enc_seq(rf[0][kk][::r][:mo]), "vr": enc_seq(rf[1][kk][::r][:mo])},
                     dict(m, law="RefineInvariant", r=r, period=keep[kk]))
-            s0 = sdof.pseudo_response_spectra(a, dt, pk, xi)
+            s0 = sdof.pseudo_response_spectra(a[:mo], dt, pk, xi)
             s1 = sdof.pseudo_response_spectra(fine, dt / r, pk, xi)
             for q in range(3):
                 # below 6 time steps the reported S_a is the PGA by rule (C03); refinement moves that threshold, so the
